@@ -140,8 +140,18 @@ impl Property for C02 {
         if c.numberless && &out != s {
             return Err(format!("a text made of ordinary words and punctuation only was changed: {:?} -> {:?}", s, out));
         }
-        // (4) stream clause
-        let stream = stream_of(s, &c.hints);
+        // (4) stream clause, on three streams made of the same text: every token of the tokenizer; the same without
+        // the whitespace tokens; word tokens only (what a speech recogniser hands over: occurrences can then be
+        // directly adjacent, end(k) == start(k+1))
+        let mut occ_full: Vec<Occ> = vec![];
+        for form in 0..3u8 {
+        let stream: Vec<Tk> = {
+            let kept: Vec<&str> = raw.iter().map(|t| t.text.as_str()).filter(|x| match form { 0 => true, 1 => !is_ws(x), _ => is_word(x) }).collect();
+            let mut v: Vec<Tk> = kept.iter().enumerate().map(|(i, x)| Tk::new(i, x)).collect();
+            apply_hints(&mut v, &c.hints);
+            v
+        };
+        let s = &stream.iter().map(|t| t.text.as_str()).collect::<Vec<_>>().join("|");
         let n = stream.len();
         let occ = occs(find_numbers(stream.iter(), lg, th));
         let res = replace_numbers_in_stream(stream.clone(), lg, th);
@@ -179,8 +189,14 @@ impl Property for C02 {
             }
         }
         if k != occ.len() || expect != res {
-            return Err(format!("stream rewrite differs from 'kept tokens + one replacement per reported occurrence'\n text {:?} th={}\n occs {:?}\n got {:?}", s, fmt_th(c.th_bits), occ, res.iter().map(|t| (t.ids.clone(), t.text.clone(), t.replaced)).collect::<Vec<_>>()));
+            return Err(format!("stream rewrite differs from 'kept tokens + one replacement per reported occurrence'\n tokens {:?} th={}\n occs {:?}\n got {:?}", s, fmt_th(c.th_bits), occ, res.iter().map(|t| (t.ids.clone(), t.text.clone(), t.replaced)).collect::<Vec<_>>()));
         }
+        obs.label_if(form > 0 && occ.windows(2).any(|w| w[0].end == w[1].start), "adjacent-occurrences(no-gap-stream)");
+        if form == 0 {
+            occ_full = occ;
+        }
+        }
+        let occ = occ_full;
         // classification
         obs.label(match o.len() {
             0 => "occurrences=0",
